@@ -15,7 +15,11 @@ package main
 //	                                                       tasks get a goroutine, which runs inline,
 //	                                                       the order spawn / inline / wait, what a
 //	                                                       goroutine executes in which order, whether
-//	                                                       every run is handed the tool options)
+//	                                                       every run is handed the tool options; a
+//	                                                       top-level helper the goroutine hands the
+//	                                                       runner and the task to is read as a frame
+//	                                                       of its own: its body, then its deferred
+//	                                                       calls, in the place of the call)
 //	schema.ToolMessage (schema/message.go)                 which argument becomes content / call id
 //
 // The translator is a small compiler for the fragment these functions are written in:
@@ -1827,12 +1831,54 @@ func c17RunCallIndex(s ast.Stmt, run, tasks string) (string, bool) {
 	return strings.Join(strings.Fields(types.ExprString(ix.Index)), ""), true
 }
 
-func c17ParallelShape(fd *ast.FuncDecl) (string, error) {
+// the names the file gives to function types: type N func(...)
+func c17FuncTypeNames(f *ast.File) map[string]bool {
+	out := map[string]bool{}
+	if f == nil {
+		return out
+	}
+	for _, d := range f.Decls {
+		gd, ok := d.(*ast.GenDecl)
+		if !ok || gd.Tok != token.TYPE {
+			continue
+		}
+		for _, sp := range gd.Specs {
+			if ts, ok := sp.(*ast.TypeSpec); ok && ts.TypeParams == nil {
+				if _, ok := ts.Type.(*ast.FuncType); ok {
+					out[ts.Name.Name] = true
+				}
+			}
+		}
+	}
+	return out
+}
+
+// the name of the variadic last parameter, "" if there is none
+func c17VariadicParam(fl *ast.FieldList) string {
+	if fl == nil || len(fl.List) == 0 {
+		return ""
+	}
+	last := fl.List[len(fl.List)-1]
+	if _, ok := last.Type.(*ast.Ellipsis); !ok || len(last.Names) != 1 {
+		return ""
+	}
+	return last.Names[0].Name
+}
+
+func c17ParallelShape(fd *ast.FuncDecl, funcs map[string]*ast.FuncDecl, file *ast.File) (string, error) {
 	bad := func(f string, a ...any) (string, error) {
 		return "", fmt.Errorf("parallelRunToolCall: "+f, a...)
 	}
-	if fd == nil || fd.Body == nil || c17GoSig(fd) != "(context.Context,func,[]toolCallTask,[]tool.Option)" {
+	if fd == nil || fd.Body == nil {
 		return bad("signature")
+	}
+	// (the runner may be given as a function type or under a name the file gives to a function type)
+	if sig := c17GoSig(fd); sig != "(context.Context,func,[]toolCallTask,[]tool.Option)" {
+		sps := c17Params(fd.Type.Params)
+		if len(sps) != 4 || !c17FuncTypeNames(file)[sps[1].typ] ||
+			strings.Replace(sig, ","+sps[1].typ+",", ",func,", 1) != "(context.Context,func,[]toolCallTask,[]tool.Option)" {
+			return bad("signature")
+		}
 	}
 	ps := c17Params(fd.Type.Params)
 	run, tasks := ps[1].name, ps[2].name
@@ -1912,19 +1958,43 @@ func c17ParallelShape(fd *ast.FuncDecl) (string, error) {
 		return bad("spawn loop: go statement")
 	}
 	lit, ok := gs.Call.Fun.(*ast.FuncLit)
-	if !ok || len(gs.Call.Args) < 2 || len(gs.Call.Args) > 3 {
+	if !ok || len(gs.Call.Args) < 1 || len(gs.Call.Args) > 3 {
 		return bad("go statement")
 	}
-	if !c17PassesOpts(gs.Call, "opts") {
-		c17OptsDropped = append(c17OptsDropped, "go statement")
+	lps := c17Params(lit.Type.Params)
+	if len(lps) != len(gs.Call.Args) {
+		return bad("goroutine parameters")
 	}
-	u, ok := gs.Call.Args[1].(*ast.UnaryExpr)
-	if !ok || u.Op != token.AND {
+	// the task handed over: the argument &tasks[_] (the context and the tool options are parameters of the
+	// goroutine's function, or captured by it: nothing in this function assigns them)
+	tpos := -1
+	var ix *ast.IndexExpr
+	for j, a := range gs.Call.Args {
+		if u, ok := a.(*ast.UnaryExpr); ok && u.Op == token.AND {
+			if x, ok := u.X.(*ast.IndexExpr); ok && c17IsIdent(x.X, tasks) {
+				if tpos >= 0 {
+					return bad("go statement: the task handed over")
+				}
+				tpos, ix = j, x
+			}
+		}
+	}
+	if tpos < 0 {
 		return bad("go statement: the task handed over")
 	}
-	ix, ok := u.X.(*ast.IndexExpr)
-	if !ok || !c17IsIdent(ix.X, tasks) {
-		return bad("go statement: the task handed over")
+	optsInner := c17VariadicParam(lit.Type.Params)
+	if optsInner != "" {
+		last := gs.Call.Args[len(gs.Call.Args)-1]
+		if !gs.Call.Ellipsis.IsValid() || !c17IsIdent(last, "opts") {
+			c17OptsDropped = append(c17OptsDropped, "go statement")
+		}
+	} else {
+		for _, lp := range lps {
+			if lp.name == "opts" {
+				return bad("goroutine parameters")
+			}
+		}
+		optsInner = "opts" // captured
 	}
 	cell := strings.Join(strings.Fields(types.ExprString(ix.Index)), "")
 	cellG := ""
@@ -1945,63 +2015,123 @@ func c17ParallelShape(fd *ast.FuncDecl) (string, error) {
 	if cellG == "" {
 		return bad("go statement: index of the task handed over")
 	}
-	lps := c17Params(lit.Type.Params)
-	if len(lps) != 3 {
-		return bad("goroutine parameters")
-	}
-	tparam := lps[1].name
-	// goroutine body: defers, then run(ctx_, t, opts...)
-	var defers, body []string
-	flag := ""
-	for _, st := range lit.Body.List {
-		switch s := st.(type) {
-		case *ast.DeferStmt:
-			if len(body) > 0 {
-				return bad("a defer statement after the tool has been run")
-			}
-			if sel, ok := s.Call.Fun.(*ast.SelectorExpr); ok && c17IsIdent(sel.X, wg) && sel.Sel.Name == "Done" && len(s.Call.Args) == 0 {
-				defers = append(defers, "GDone")
-			} else if fl, ok := s.Call.Fun.(*ast.FuncLit); ok && c17RecoverStores(fl, tparam) {
-				defers = append(defers, "GRecover")
-			} else {
-				return bad("a deferred call of another shape")
-			}
-		case *ast.ExprStmt:
-			c, ok := s.X.(*ast.CallExpr)
-			if !ok || !c17IsIdent(c.Fun, run) || len(c.Args) < 2 || len(c.Args) > 3 || !c17IsIdent(c.Args[1], tparam) {
-				return bad("a statement of another shape in the goroutine")
-			}
-			if !c17PassesOpts(c, lps[2].name) {
-				c17OptsDropped = append(c17OptsDropped, "goroutine")
-			}
-			body = append(body, "GRun")
-		case *ast.AssignStmt:
-			// a completion flag for the recover handler (a panic whose value recover() reports as nil):
-			// `flag := false` before the tool is run, `flag = true` after it; no effect on the order of the steps
-			if len(s.Lhs) != 1 || len(s.Rhs) != 1 {
-				return bad("a statement of another shape in the goroutine")
-			}
-			id, ok := s.Lhs[0].(*ast.Ident)
-			if !ok {
-				return bad("a statement of another shape in the goroutine")
-			}
-			switch {
-			case s.Tok == token.DEFINE && len(body) == 0 && flag == "" && c17IsIdent(s.Rhs[0], "false"):
-				flag = id.Name
-			case s.Tok == token.ASSIGN && len(body) == 1 && flag != "" && id.Name == flag && c17IsIdent(s.Rhs[0], "true"):
+	tparam := lps[tpos].name
+	// One frame (the goroutine's function, or a helper it calls that runs the task): its statements in the order
+	// they execute - the body, then the frame's deferred calls, last deferred first. A helper's steps take the
+	// place of its call. A recover handler deferred in a frame contains the panics of that frame and of the frames
+	// it calls, so the handler must be deferred in the frame that runs the tool or in its caller.
+	var frame func(list []ast.Stmt, runN, tN, optsN string, top bool) ([]string, string)
+	frame = func(list []ast.Stmt, runN, tN, optsN string, top bool) ([]string, string) {
+		var defers, body []string
+		flag := ""
+		ranHere := false
+		for _, st := range list {
+			switch s := st.(type) {
+			case *ast.DeferStmt:
+				if len(body) > 0 {
+					return nil, "a defer statement after the tool has been run"
+				}
+				if sel, ok := s.Call.Fun.(*ast.SelectorExpr); ok && top && c17IsIdent(sel.X, wg) && sel.Sel.Name == "Done" && len(s.Call.Args) == 0 {
+					defers = append(defers, "GDone")
+				} else if fl, ok := s.Call.Fun.(*ast.FuncLit); ok && c17RecoverStores(fl, tN) {
+					defers = append(defers, "GRecover")
+				} else {
+					return nil, "a deferred call of another shape"
+				}
+			case *ast.ExprStmt:
+				c, ok := s.X.(*ast.CallExpr)
+				if !ok {
+					return nil, "a statement of another shape in the goroutine"
+				}
+				if c17IsIdent(c.Fun, runN) {
+					if len(c.Args) < 2 || len(c.Args) > 3 || !c17IsIdent(c.Args[1], tN) {
+						return nil, "a statement of another shape in the goroutine"
+					}
+					if !c17PassesOpts(c, optsN) {
+						c17OptsDropped = append(c17OptsDropped, "goroutine")
+					}
+					body = append(body, "GRun")
+					ranHere = true
+					continue
+				}
+				// a helper of this file that is handed the runner and the task
+				hid, ok := c.Fun.(*ast.Ident)
+				if !ok || !top || funcs[hid.Name] == nil {
+					return nil, "a statement of another shape in the goroutine"
+				}
+				h := funcs[hid.Name]
+				hps := c17Params(h.Type.Params)
+				optsH := c17VariadicParam(h.Type.Params)
+				if h.Recv != nil || h.Body == nil || h.Type.TypeParams != nil || len(c17Params(h.Type.Results)) != 0 ||
+					(len(hps) != len(c.Args) && !(optsH != "" && len(hps) == len(c.Args)+1)) {
+					return nil, "a helper of another shape in the goroutine"
+				}
+				runH, tH := "", ""
+				for j, a := range c.Args {
+					switch {
+					case c17IsIdent(a, runN) && runH == "":
+						runH = hps[j].name
+					case c17IsIdent(a, tN) && tH == "":
+						tH = hps[j].name
+					}
+				}
+				if runH == "" || tH == "" || runH == "_" || tH == "_" {
+					return nil, "a helper of another shape in the goroutine"
+				}
+				if optsH == "" || !c.Ellipsis.IsValid() || !c17IsIdent(c.Args[len(c.Args)-1], optsN) {
+					c17OptsDropped = append(c17OptsDropped, "helper call in the goroutine")
+				}
+				hs, why := frame(h.Body.List, runH, tH, optsH, false)
+				if why != "" {
+					return nil, why
+				}
+				hasRun, hasRec := false, false
+				for _, x := range hs {
+					hasRun = hasRun || x == "GRun"
+					hasRec = hasRec || x == "GRecover"
+				}
+				if !hasRun {
+					return nil, "a helper that does not run the tool"
+				}
+				_ = hasRec
+				body = append(body, hs...)
+			case *ast.AssignStmt:
+				// a completion flag for the recover handler (a panic whose value recover() reports as nil):
+				// `flag := false` before the tool is run, `flag = true` after it; no effect on the order of the steps
+				if len(s.Lhs) != 1 || len(s.Rhs) != 1 {
+					return nil, "a statement of another shape in the goroutine"
+				}
+				id, ok := s.Lhs[0].(*ast.Ident)
+				if !ok {
+					return nil, "a statement of another shape in the goroutine"
+				}
+				switch {
+				case s.Tok == token.DEFINE && len(body) == 0 && flag == "" && c17IsIdent(s.Rhs[0], "false"):
+					flag = id.Name
+				case s.Tok == token.ASSIGN && len(body) == 1 && ranHere && flag != "" && id.Name == flag && c17IsIdent(s.Rhs[0], "true"):
+				default:
+					return nil, "a statement of another shape in the goroutine"
+				}
 			default:
-				return bad("a statement of another shape in the goroutine")
+				return nil, "a statement of another shape in the goroutine"
 			}
-		default:
-			return bad("a statement of another shape in the goroutine")
 		}
+		steps := append([]string{}, body...)
+		for i := len(defers) - 1; i >= 0; i-- {
+			steps = append(steps, defers[i])
+		}
+		return steps, ""
 	}
-	if len(body) != 1 || len(defers) != 2 || defers[0] == defers[1] {
+	prog, why := frame(lit.Body.List, run, tparam, optsInner, true)
+	if why != "" {
+		return bad("%s", why)
+	}
+	cnt := map[string]int{}
+	for _, x := range prog {
+		cnt[x]++
+	}
+	if len(prog) != 3 || cnt["GRun"] != 1 || cnt["GRecover"] != 1 || cnt["GDone"] != 1 {
 		return bad("expected one run call, one deferred wg.Done and one deferred recover handler")
-	}
-	prog := append([]string{}, body...)
-	for i := len(defers) - 1; i >= 0; i-- {
-		prog = append(prog, defers[i])
 	}
 	// run(ctx, &tasks[J], opts...) ; wg.Wait()
 	inline, ok := c17RunCallIndex(l[3], run, tasks)
@@ -2193,7 +2323,7 @@ func c17ExtractToolNode(repo string) (string, string, error) {
 		return "", "", err
 	}
 	b.WriteString(tm)
-	par, err := c17ParallelShape(t.funcs["parallelRunToolCall"])
+	par, err := c17ParallelShape(t.funcs["parallelRunToolCall"], t.funcs, f)
 	if err != nil {
 		return "", "", err
 	}
